@@ -5,7 +5,8 @@ C03 CODE MODEL: txdbus/message.py as the code is written (after repairs 7466ae7:
 restores the two flags; efe5b53: the constructors test `is not None`; d5434a8: parseMessage refuses a
 truthy signature attribute that is not a str of at most 255 characters; 84eeaa3: `_marshal` has a
 parameter `rawBody=None` used only by the bus when it forwards a received message - the constructors
-never pass it; `remarshal` below is that forwarding call; 9fa03fd: `_marshal` types `reply_serial` as UInt32).
+never pass it; `remarshal` below is that forwarding call; 9fa03fd: `_marshal` types `reply_serial` as UInt32;
+24fc328: flag bits other than 0x1 / 0x2 are kept in `otherFlags` by parseMessage and re-emitted by `_marshal`).
 
   * a message object is its class, the two flag attributes, the nine header attributes
     (`getattr(self, name, None)`: an attribute that was never set reads as None, like the class
@@ -50,6 +51,9 @@ structure Msg (β : Type) where
   rawHeader : Bytes
   rawPadding : Bytes
   rawBody : Bytes
+  /-- `otherFlags` (repair 24fc328 = C14-04): the flag bits other than 0x1 / 0x2 of a PARSED message; the class
+  attribute default 0 on every constructed message -/
+  otherFlags : Nat := 0
 
 /-- `rawMessage = b''.join([binHeader, headerPadding, binBody])` -/
 def Msg.raw {β : Type} (m : Msg β) : Bytes := m.rawHeader ++ m.rawPadding ++ m.rawBody
@@ -156,6 +160,10 @@ def marshalBody {β : Type} (T : Tables) (C : BodyCodec β) (p : Pre β) (oobFDs
 def flagsByte (expectReply autoStart : Bool) : Nat :=
   (if expectReply then 0 else 1) + (if autoStart then 0 else 2)
 
+/-- `flags = self.otherFlags & ~0x3`, then `|= 0x1` unless expectReply, `|= 0x2` unless autoStart (24fc328). -/
+def flagsWith (otherFlags : Nat) (expectReply autoStart : Bool) : Nat :=
+  otherFlags / 4 * 4 + flagsByte expectReply autoStart
+
 /-- Second part of `_marshal`: header list, serial allocation, header, padding, size check. -/
 def finishMarshal {β : Type} (T : Tables) (maxLen : Nat) (st : St) (p : Pre β) (binBody : Bytes)
     (attrs : Attr → PyVal) (table : List (Attr × Nat × Bool)) : St × Except PyErr (Msg β) :=
@@ -169,7 +177,7 @@ def finishMarshal {β : Type} (T : Tables) (maxLen : Nat) (st : St) (p : Pre β)
     if T.headerFormat ≠ ['y', 'y', 'y', 'y', 'u', 'u', 'a', '(', 'y', 'v', ')'] then (st', .error .other)
     else
     match marshalHeader T.align le (.int .plain (T.endian : Nat)) (.int .plain (T.messageType p.cls : Nat))
-            (.int .plain (flagsByte p.expectReply p.autoStart : Nat)) (.int .plain (T.protocolVersion : Nat))
+            (.int .plain (flagsWith 0 p.expectReply p.autoStart : Nat)) (.int .plain (T.protocolVersion : Nat))
             (.int .plain (binBody.length : Nat)) (.int .plain (serial : Nat)) headers with
     | .error x => (st', .error x)
     | .ok binHeader =>
@@ -200,7 +208,7 @@ def remarshal {β : Type} (T : Tables) (maxLen : Nat) (m : Msg β) (endian : Nat
     if T.headerFormat ≠ ['y', 'y', 'y', 'y', 'u', 'u', 'a', '(', 'y', 'v', ')'] then .error .other
     else
     match marshalHeader T.align le (.int .plain (endian : Nat)) (.int .plain (T.messageType m.cls : Nat))
-            (.int .plain (flagsByte m.expectReply m.autoStart : Nat)) (.int .plain (T.protocolVersion : Nat))
+            (.int .plain (flagsWith m.otherFlags m.expectReply m.autoStart : Nat)) (.int .plain (T.protocolVersion : Nat))
             (.int .plain (rawBody.length : Nat)) (.int .plain (m.serial : Nat)) headers with
     | .error x => .error x
     | .ok binHeader =>
@@ -382,7 +390,8 @@ def parseAfterHeader {β : Type} (T : Tables) (C : BodyCodec β) (rawMessage : B
     let attrs := applyFields T noAttrs h.fields
     let m : Msg β := { cls := cls, expectReply := h.flags % 2 = 0, autoStart := h.flags / 2 % 2 = 0,
                        attrs := attrs, body := none, serial := h.serial, rawHeader := rawHeader,
-                       rawPadding := rawPadding, rawBody := rawBody }
+                       rawPadding := rawPadding, rawBody := rawBody,
+                       otherFlags := h.flags / 4 * 4 }          -- m.otherFlags = flags & ~0x3
     let sigv := attrs .signature
     if truthy sigv then
       -- repair d5434a8: `if not isinstance(m.signature, str) or len(m.signature) > 255: raise MarshallingError`
